@@ -207,6 +207,33 @@ theorem build_ranges_contiguous {φ : Type} [DecidableEq φ] (srt : Bool) (le : 
       · cases h
       · rw [← Except.ok.inj h]; exact ranges_contiguous _ (some sl) hnd
 
+/-- every dataset the constructors build **is** the fold over a duplicate-free file list, so `item_designated`,
+`item_designated_iff`, `ranges_files` apply to it with their distinctness hypothesis discharged -/
+theorem build_is_parse {φ : Type} [DecidableEq φ] (srt : Bool) (le : φ → φ → Bool) (sel : Selection φ)
+    (nOf : φ → Option Nat) (F : FilterArg) (P : Parsed φ) (h : buildH5 srt true le sel nOf F = .ok P) :
+    ∃ fs filt, selectFiles srt true le sel = .ok fs ∧ P = parseFilenames (fs.map fun f => (f, nOf f)) filt ∧
+      ((readable (fs.map fun f => (f, nOf f))).map (·.1)).Nodup := by
+  unfold buildH5 at h
+  split at h
+  · cases h
+  · rename_i fs hfs
+    have hnd : ((readable (fs.map fun f => (f, nOf f))).map (·.1)).Nodup := by
+      rw [readable_map_fst]
+      exact (select_nodup srt le sel fs hfs).sublist List.filter_sublist
+    unfold parseChecked at h
+    cases F with
+    | none => simp only at h; exact ⟨fs, none, hfs, (Except.ok.inj h).symm, hnd⟩
+    | other =>
+      simp only at h
+      split at h
+      · cases h
+      · exact ⟨fs, none, hfs, (Except.ok.inj h).symm, hnd⟩
+    | slice sl =>
+      simp only at h
+      split at h
+      · cases h
+      · exact ⟨fs, some sl, hfs, (Except.ok.inj h).symm, hnd⟩
+
 /-- a list of contiguous ranges from 0 to `len` partitions `0 … len-1` -/
 theorem contiguous_partition {φ : Type} {vols : List (φ × Nat × Nat)} {len : Nat} (hc : Contiguous 0 vols len) (i : Nat)
     (hi : i < len) :
@@ -626,17 +653,17 @@ theorem fake_duplicate_names_observation :
 
 /-- **`SheppLoganDataset[i]` for `0 ≤ i < nz`**: renders slice `i`, with seed `seed[i]`, and reports `slice_no = i` -/
 theorem shepp_index_spec (nz i : Nat) (h : i < nz) : sheppIndex nz (i : Int) = .ok (i, i, (i : Int)) := by
-  unfold sheppIndex pyIndex
+  unfold sheppIndex sheppIndexWith pyIndex
   have h0 : ¬ ((i : Int) < 0) := by omega
   have hm : Int.fmod (i : Int) (nz : Int) = (i : Int) := by
     rw [Int.fmod_eq_emod_of_nonneg _ (by omega)]
     exact Int.emod_eq_of_lt (by omega) (by omega)
-  simp [h0, h, hm]
+  simp [h0, h, hm, sheppReportsIndexAsGiven]
 
 /-- indices outside `-nz … nz-1` are rejected (by `self.seed[idx]`) -/
 theorem shepp_index_out_of_range (nz : Nat) (idx : Int) (h : (nz : Int) ≤ idx ∨ idx < -(nz : Int)) :
     sheppIndex nz idx = .error .indexError := by
-  unfold sheppIndex pyIndex
+  unfold sheppIndex sheppIndexWith pyIndex
   rcases h with h | h
   · have h0 : ¬ (idx < 0) := by omega
     have : ¬ (idx.toNat < nz) := by omega
@@ -645,12 +672,42 @@ theorem shepp_index_out_of_range (nz : Nat) (idx : Int) (h : (nz : Int) ≤ idx 
     have : idx + (nz : Int) < 0 := by omega
     simp [h0, this]
 
-/-- what holds for negative indices `-nz ≤ idx < 0` on the current tree: the **data** is that of slice `nz + idx`
-(rendered slice and seed agree), the reported `slice_no` is `idx` as given … -/
-theorem shepp_index_negative_partial (nz : Nat) (idx : Int) (h0 : idx < 0) (h1 : -(nz : Int) ≤ idx) :
-    sheppIndex nz idx = .ok ((idx + nz).toNat, (idx + nz).toNat, idx) := by
-  unfold sheppIndex pyIndex
-  have h2 : ¬ (idx + ((List.range nz).length : Int) < 0) := by simp; omega
+/-- **negative indices `-nz ≤ idx < 0` address slice `nz + idx`**: rendered slice, seed and reported `slice_no` agree -/
+theorem shepp_index_negative (nz : Nat) (idx : Int) (h0 : idx < 0) (h1 : -(nz : Int) ≤ idx) :
+    sheppIndex nz idx = .ok ((idx + nz).toNat, (idx + nz).toNat, idx + nz) := by
+  unfold sheppIndex sheppIndexWith pyIndex
+  have hm : Int.fmod idx (nz : Int) = idx + nz := by
+    rw [Int.fmod_eq_emod_of_nonneg _ (by omega), ← Int.add_emod_right]
+    exact Int.emod_eq_of_lt (by omega) (by omega)
+  have hl : (idx + (nz : Int)).toNat < nz := by omega
+  have h3 : ¬ (idx + (nz : Int) < 0) := by omega
+  simp [h0, h3, hm, hl, sheppReportsIndexAsGiven]
+
+/-- **whatever index is accepted, the item is one slice: the rendered slice, the seed position and the reported
+`slice_no` are the same number, and it lies in `0 … nz-1`** (all `nz`, all integers `idx`) -/
+theorem shepp_index_consistent (nz : Nat) (idx : Int) (s k : Nat) (r : Int) (h : sheppIndex nz idx = .ok (s, k, r)) :
+    k = s ∧ r = (s : Int) ∧ s < nz := by
+  by_cases hout : (nz : Int) ≤ idx ∨ idx < -(nz : Int)
+  · rw [shepp_index_out_of_range nz idx hout] at h; cases h
+  · by_cases h0 : idx < 0
+    · rw [shepp_index_negative nz idx h0 (by omega)] at h
+      have e := Except.ok.inj h
+      simp only [Prod.mk.injEq] at e
+      obtain ⟨e1, e2, e3⟩ := e
+      omega
+    · have hi : idx = ((idx.toNat : Nat) : Int) := by omega
+      have hlt : idx.toNat < nz := by omega
+      rw [hi, shepp_index_spec nz idx.toNat hlt] at h
+      have e := Except.ok.inj h
+      simp only [Prod.mk.injEq] at e
+      obtain ⟨e1, e2, e3⟩ := e
+      omega
+
+/-- what held for negative indices on the pinned tree (`"slice_no": idx`): the **data** was that of slice `nz + idx`,
+the reported `slice_no` was `idx` as given … -/
+theorem shepp_index_negative_pinned_partial (nz : Nat) (idx : Int) (h0 : idx < 0) (h1 : -(nz : Int) ≤ idx) :
+    sheppIndexPinned nz idx = .ok ((idx + nz).toNat, (idx + nz).toNat, idx) := by
+  unfold sheppIndexPinned sheppIndexWith pyIndex
   have hm : Int.fmod idx (nz : Int) = idx + nz := by
     rw [Int.fmod_eq_emod_of_nonneg _ (by omega), ← Int.add_emod_right]
     exact Int.emod_eq_of_lt (by omega) (by omega)
@@ -658,11 +715,10 @@ theorem shepp_index_negative_partial (nz : Nat) (idx : Int) (h0 : idx < 0) (h1 :
   have h3 : ¬ (idx + (nz : Int) < 0) := by omega
   simp [h0, h3, hm, hl]
 
-/-- … **so for a negative index the reported `slice_no` is not the slice the item designates**: `ds[-1]` of a 4-slice
-phantom is slice 3 labelled `slice_no = -1` (full statement that fails on the current tree:
-`∀ idx, sheppIndex nz idx = .ok (s, k, r) → r = s`). -/
-theorem shepp_negative_index_current_violates :
-    sheppIndex 4 (-1) = .ok (3, 3, -1) ∧ ¬ (∀ idx s k r, sheppIndex 4 idx = .ok (s, k, r) → r = (s : Int)) := by
+/-- … regression (pinned tree): `ds[-1]` of a 4-slice phantom was slice 3 labelled `slice_no = -1`, so
+`shepp_index_consistent` failed -/
+theorem shepp_negative_index_pinned_violates :
+    sheppIndexPinned 4 (-1) = .ok (3, 3, -1) ∧ ¬ (∀ idx s k r, sheppIndexPinned 4 idx = .ok (s, k, r) → r = (s : Int)) := by
   refine ⟨by rfl, fun h => ?_⟩
   have := h (-1) 3 3 (-1) (by rfl)
   omega
@@ -709,6 +765,7 @@ example : fakeIndex (fakeBuild [(1 : Nat), 2] [10, 11] 3) (-1) = .ok (2, 2, 11) 
 example : [(1 : Nat), 2].Nodup ∧ (1 : Nat) < [(1 : Nat), 2].length ∧ (2 : Nat) < 3 := by decide
 example : sheppIndex 4 2 = .ok (2, 2, 2) := by rfl
 example : sheppIndex 4 4 = .error .indexError := by rfl
+example : sheppIndex 4 (-1) = .ok (3, 3, 3) := by rfl
 example : fakeTableCurrent.allTrue = true := by decide
 example : (fakeItem toyRng fakeTableCurrent (fun d _ => d) ⟨3, 2, 18⟩ 3 5 0 0).1 = ((6000, some 6000), 0).1 := by decide
 example : sheppTableCurrent.allTrue = true := by decide
